@@ -243,7 +243,7 @@ def gen(i, R, tier, force_mode=None):
     if force_mode:
         swarm["mode"] = force_mode
     ops = []
-    P = [p for p in pairs() if p[1] not in G.HEAVY]
+    P = [p for p in pairs() if p[1] not in G.HEAVY]       # (pairs() itself keeps them: the reference table knows them)
     heavy_pairs = [p for p in pairs() if p[1] in G.HEAVY]
     malformed = [p for p in P if p[1].split(".", 1)[1] in ("unbal", "half", "closers", "arrowparam", "arrowmix", "arrowcall", "deflast")]
     if swarm["mode"] == "library" and rng.random() < 0.12:
